@@ -138,18 +138,26 @@ func answer(req *dns.Msg) (resp *dns.Msg) {
 	resp.RecursionAvailable = true
 	resp.AuthenticatedData = sh.ad
 
-	soa := func() dns.RR {
-		return &dns.SOA{
-			Hdr:    dns.RR_Header{Name: "test.", Rrtype: dns.TypeSOA, Class: q.Qclass, Ttl: sh.soaTTL},
-			Ns:     "ns.test.", Mbox: "h.test.", Serial: 1, Refresh: 1, Retry: 1, Expire: 1, Minttl: sh.soaMin,
-		}
-	}
-
 	tagSrc := "fixed:" + lname
 	if sh.ecs && hasECS {
 		tagSrc = "subnet:" + subnet.String()
 	}
 	t1, t2, t3 := tagFor(tagSrc)
+
+	soa := func() dns.RR {
+		// A negative answer of a region-dependent name is region-dependent
+		// too (a zone served differently per region): its SOA carries the
+		// tag in the serial.
+		serial := uint32(1)
+		if sh.ecs && hasECS {
+			serial = 0x01000000 | uint32(t1)<<16 | uint32(t2)<<8 | uint32(t3)
+		}
+
+		return &dns.SOA{
+			Hdr:    dns.RR_Header{Name: "test.", Rrtype: dns.TypeSOA, Class: q.Qclass, Ttl: sh.soaTTL},
+			Ns:     "ns.test.", Mbox: "h.test.", Serial: serial, Refresh: 1, Retry: 1, Expire: 1, Minttl: sh.soaMin,
+		}
+	}
 
 	mk := func(name string, ttl uint32, i int) dns.RR {
 		hdr := dns.RR_Header{Name: name, Rrtype: q.Qtype, Class: q.Qclass, Ttl: ttl}
@@ -1001,9 +1009,15 @@ func checkClientSide(s *kernel.Sim, i int, req, resp *dns.Msg, sh shape, ecs ecs
 		t1, t2, t3 := tagFor("subnet:" + want.String())
 		fam, _ := famOf(want.Addr())
 		z1, z2, z3 := tagFor("subnet:" + netutil.ZeroPrefix(fam).String())
-		for _, rr := range resp.Answer {
+		for _, rr := range append(append([]dns.RR{}, resp.Answer...), resp.Ns...) {
 			var got [3]byte
 			switch rr := rr.(type) {
+			case *dns.SOA:
+				if rr.Serial>>24 != 1 {
+					// Computed without a subnet.
+					continue
+				}
+				got = [3]byte{byte(rr.Serial >> 16), byte(rr.Serial >> 8), byte(rr.Serial)}
 			case *dns.A:
 				ip := rr.A.To4()
 				got = [3]byte{ip[1], ip[2], ip[3]}
